@@ -184,7 +184,7 @@ CLAIMED.update({
         "Decides the welded cube completely - every directed edge of its constant index table occurs exactly once with its reverse exactly once (CUBE-CLOSED), the signed volume equals 6 W H D as a polynomial identity (CUBE-VOLUME), supplied normals have a positive dot product with every incident face normal (CUBE-NORMAL) - and, for the parametrised solids, structural necessary conditions only: "
         "every supplied normal of UVSphere / Hemisphere.UV is a positive multiple of its own vertex position and every vertex lies on the sphere |p|^2 = r^2 (NORMAL-RADIAL); cylinder side normals are parallel to and point away from the axis like the position at the same index, arrays completely filled (NORMAL-CYL); the circle cap has one constant unit normal perpendicular to every stored position (CAP-NORMAL); "
         "in every loop that emits triangles along a ring each counter-dependent index is base+i or base+(i+1) mod n with n the iteration count and the ring size, counter from 0 step 1 without early exit, so each ring vertex starts exactly one ring edge and ends exactly one (SEAM, no induction over rows). "
-        "NOT decided (stated limit, DESIGN.md 5): pairing across rows, orientation of strips and fans, cap orientation (needs numeric sin/cos values), the cylinder's bottom cap rotation and seam column, volumes of sphere / hemisphere / cylinder, Cube.UnweldedQuads.",
+        "NOT decided (stated limit, DESIGN.md 5): pairing across rows, orientation of strips and fans, cap orientation (needs numeric sin/cos values), the numeric action of rotations (face orientation of the quad cube, the cylinder's seam column), volumes of sphere / hemisphere / cylinder.",
         "go/types + go/ssa of x/tools v0.29.0; real arithmetic; sin/cos uninterpreted.",
         "DESIGN.md 5; checker/props/c18/REPORT.md",
     ),
